@@ -282,8 +282,9 @@ def macro_names(t):
 # K3: what happens to an io::Result produced at a call site
 # ---------------------------------------------------------------------------
 IO_RESULT_RE = "core::result::Result<"
-PASS_THROUGH = {"map", "map_err", "and_then", "or_else", "or", "and", "inspect", "inspect_err"}
-SWALLOW = {"ok", "err", "is_ok", "is_err", "unwrap_or", "unwrap_or_default", "unwrap_or_else", "is_ok_and", "is_err_and"}
+PASS_THROUGH = {"map", "map_err", "and_then", "or_else", "and", "inspect", "inspect_err"}
+# `a.or(b)` is Ok as soon as ONE of the two is: the other one's error is lost (both operand positions)
+SWALLOW = {"ok", "err", "is_ok", "is_err", "unwrap_or", "unwrap_or_default", "unwrap_or_else", "is_ok_and", "is_err_and", "or"}
 UNWRAP = {"unwrap", "expect", "unwrap_unchecked", "expect_err", "unwrap_err"}
 
 
